@@ -61,11 +61,13 @@ class CacheNotIsolated(Exception):
 
 class WalkSys:
     def __init__(self, *, universe="H5", values=("S", "L"), prune=False, use_cache=False, max_mut=1, seed=0, init="all", batch_mut=False,
-                 mut_values=("S", "L"), root_via="traverse", regen=False):
+                 mut_values=("S", "L"), root_via="traverse", regen=False, nested_mut=False):
         self.kw = dict(universe=universe, values=list(values), prune=prune, use_cache=use_cache, max_mut=max_mut, seed=seed, init=init,
                        batch_mut=batch_mut, mut_values=list(mut_values), root_via=root_via)
         if regen:
             self.kw["regen"] = True
+        if nested_mut:
+            self.kw["nested_mut"] = True
         self.regen = regen and prune  # the trie being walked and modified was re-opened with the counts regenerate_ref_count() reports
         self.root_via = root_via
         self.labels = alphabet.Labels(seed)
@@ -87,6 +89,13 @@ class WalkSys:
                 for b in base[1:: max(1, len(base) // 5)]:
                     if a[0][1] != b[0][1]:
                         self.muts.append((a[0], b[0]))
+        if nested_mut:
+            # an outer batch does a, a batch opened on the batch trie does b to the SAME key, both commit
+            base = [q for q in self.muts if len(q) == 1]
+            for a in base:
+                for b in base:
+                    if a[0][1] == b[0][1]:
+                        self.muts.append(("nested", a[0], b[0]))
         self.init = init
         self._init_states = None
 
@@ -152,12 +161,7 @@ class WalkSys:
             try:
                 if self.regen:
                     t = self._reopen(t)
-                if len(ev[1]) == 1:
-                    apply_op(t, m, ev[1][0])
-                else:
-                    with t.squash_changes() as b:
-                        for op in ev[1]:
-                            apply_op(b, m, op)
+                self._apply_mut(t, m, ev[1])
             except Exception as e:  # noqa
                 viols.append(V("C09", "mutation_raised", f"mutation raised {type(e).__name__}", exc=repr(e)[:160], prune=self.prune))
                 return Step(None, m, viols)
@@ -191,6 +195,20 @@ class WalkSys:
         if snapshot(t) != trie:
             viols.append(V("C09", "walk_changed_trie", "a walk step modified the trie"))
         return Step(post, model, viols)
+
+    @staticmethod
+    def _apply_mut(t, m, seq):
+        if seq[0] == "nested":
+            with t.squash_changes() as b:
+                apply_op(b, m, seq[1])
+                with b.squash_changes() as b2:
+                    apply_op(b2, m, seq[2])
+        elif len(seq) == 1:
+            apply_op(t, m, seq[0])
+        else:
+            with t.squash_changes() as b:
+                for op in seq:
+                    apply_op(b, m, op)
 
     @staticmethod
     def _reopen(t):
@@ -309,12 +327,7 @@ class WalkSys:
             live["reset"] = True
         else:
             m = live["model"]
-            if len(ev[1]) == 1:
-                apply_op(live["t"], m, ev[1][0])
-            else:
-                with live["t"].squash_changes() as b:
-                    for op in ev[1]:
-                        apply_op(b, m, op)
+            self._apply_mut(live["t"], m, ev[1])
             live["stable"] = frozenset((k, v) for k, v in live["stable"] if m.get(k) == v)
             live["ever"] = live["ever"] | frozenset(m.items())
             live["nmut"] += 1
